@@ -96,13 +96,13 @@ theorem trLoop_no_cve {c : Circuit} {ab : Bool} {next : Label → List Label} {s
 /-! ## the check does not raise ⇒ acyclic -/
 
 /-- invariant of the aborting traversal: successors of an entered gate that are not finished wait above it -/
-structure CInv (next : Label → List Label) (s : TrSt) : Prop where
+structure CycInv (next : Label → List Label) (s : TrSt) : Prop where
   pending : ∀ u, s.st u = .ent → ∀ x ∈ next u, s.st x ≠ .vis →
     ∃ pre post, s.queue = pre ++ u :: post ∧ u ∉ post ∧ x ∈ post
   post : ∀ e1 l e2, exits s.log = e1 ++ l :: e2 → ∀ x ∈ next l, x ∈ e1
 
-theorem trStep_cinv {c : Circuit} {next : Label → List Label} {s s' : TrSt}
-    (dinv : DInv s) (inv : CInv next s) (hs : trStep c false true next s = .next s') : CInv next s' := by
+theorem trStep_cycinv {c : Circuit} {next : Label → List Label} {s s' : TrSt}
+    (dinv : DInv s) (inv : CycInv next s) (hs : trStep c false true next s = .next s') : CycInv next s' := by
   unfold trStep at hs
   simp only [Bool.false_eq_true, if_false] at hs
   cases htop : s.queue.getLast? with
@@ -237,8 +237,8 @@ theorem trStep_cinv {c : Circuit} {next : Label → List Label} {s s' : TrSt}
         · exact h
         · simp only [List.mem_singleton] at h; exact absurd h hxc
 
-theorem trLoop_cinv {c : Circuit} {next : Label → List Label} :
-    ∀ fuel (s s' : TrSt), DInv s → CInv next s → trLoop c false true next fuel s = .ok s' → CInv next s'
+theorem trLoop_cycinv {c : Circuit} {next : Label → List Label} :
+    ∀ fuel (s s' : TrSt), DInv s → CycInv next s → trLoop c false true next fuel s = .ok s' → CycInv next s'
   | 0, s, s', _, _, h => by simp [trLoop] at h
   | fuel+1, s, s', dinv, inv, h => by
     unfold trLoop at h
@@ -247,7 +247,7 @@ theorem trLoop_cinv {c : Circuit} {next : Label → List Label} :
     | error e => simp [hs] at h
     | next s1 =>
       simp only [hs] at h
-      exact trLoop_cinv fuel s1 s' (trStep_dinv dinv hs) (trStep_cinv dinv inv hs) h
+      exact trLoop_cycinv fuel s1 s' (trStep_dinv dinv hs) (trStep_cycinv dinv inv hs) h
 
 /-! ## the check itself -/
 
@@ -317,7 +317,7 @@ theorem cycleCheck_false {c : Circuit} (h : hasCycleCheck c = .ok false) : Acycl
         | error e => simp [hl] at ht
         | ok s =>
           simp only [hl, Except.ok.injEq] at ht
-          have cinv := trLoop_cinv _ _ _
+          have cinv := trLoop_cycinv _ _ _
             ⟨fun l hl => (by cases hl), fun l => (by simp [exits]), (by simp [exits])⟩
             ⟨fun u hu => (by cases hu), fun e1 l e2 he => (by simp [exits] at he)⟩ hl
           intro e1 l e2 he
